@@ -62,6 +62,7 @@ type CallRecord struct {
 	ExpectStatus    int    `json:"expect_status"`
 	ExpectErrClass  string `json:"expect_err_class,omitempty"`
 	MayRefuse       bool   `json:"may_refuse,omitempty"` // a value contains its style's delimiter: an error is as good as exact delivery
+	ReqCT           string `json:"req_ct,omitempty"`     // Content-Type of the request as the client sent it
 }
 
 func (r *CallRecord) fire() { r.fired.Store(true) }
@@ -781,6 +782,16 @@ func recordingMiddleware(req middleware.Request, next middleware.Next) (middlewa
 	return next(req)
 }
 
+// secondMiddleware sits behind the recording one (a chain of two): it only yields, so that other requests can
+// be inside the chain at the same time, and notes the operation it was handed.
+func secondMiddleware(req middleware.Request, next middleware.Next) (middleware.Response, error) {
+	if si := srvFrom(req.Context); si != nil {
+		si.Side.Middleware2Saw = req.OperationName
+		si.St.MaybeYield()
+	}
+	return next(req)
+}
+
 // ---------------------------------------------------------------- client side: one call
 
 func errClass(err error) string {
@@ -1140,7 +1151,7 @@ func firstLine(s string) string {
 // newPair builds one client and one server sharing a SimTransport.
 func newPair(t *SimTransport, maxMultipartMemory int64) (*api.Client, error) {
 	srv, err := api.NewServer(handler{}, secHandler{},
-		api.WithMiddleware(recordingMiddleware),
+		api.WithMiddleware(recordingMiddleware, secondMiddleware),
 		api.WithMaxMultipartMemory(maxMultipartMemory),
 	)
 	if err != nil {
